@@ -12,6 +12,8 @@ from . import hierblock as H
 
 
 def run(ctx):
+    from . import c08
+    c08.refresh_facts(ctx)      # leaf switches -> Generated/Facts08.lean (Props import Facts08Good)
     H.load_known(ctx)
     H.t1(ctx)
     ctx.prove()
